@@ -24,7 +24,7 @@ RULE = ("one case = one LDAWrapper history: matrix class/inner solver/flags/tole
 PROBES = ["reuse_hit", "adjoint_storage", "conj_mode", "decoupled_dofs", "rows_only_decoupled", "cols_only_decoupled",
           "real_after_complex", "complex_after_real", "x0_nonempty_db", "zero_rhs", "zero_column", "dependent_block",
           "update_after_solves", "fresh_twin_also_raises", "reuse_judged", "reuse_not_judged_mixed_dtype", "reuse_not_judged_rank",
-          "cholesky_fallback", "two_wrappers"]
+          "cholesky_fallback", "two_wrappers", "stored_zeros_fixed_structure"]
 FAULT_KINDS = ["cholesky_fail_forced", "cholesky_fail_natural", "inexact_inner_solver"]
 COMPONENTS = {"real": ["pymoto.solvers.LDAWrapper", "pymoto.solvers.SolverDenseLU/QR/Cholesky/LDL", "pymoto.solvers.SolverSparseLU",
                        "pymoto.solvers.CG", "scipy LAPACK/SuperLU"],
@@ -69,7 +69,7 @@ def gen(rng, idx, tier):
     cls = str(rng.choice(G.CLASSES_CPLX if cplx else G.CLASSES_REAL))
     inner = str(rng.choice(INNER_BY_CLASS[cls]))
     n = int(rng.integers(2, 9)) if rng.random() < 0.8 else int(rng.integers(9, 15))
-    sparse = "csc" if inner == "splu" else (None if inner != "cg" else str(rng.choice(["csc", "none"])))
+    sparse = str(rng.choice(["csc", "csc_full"])) if inner == "splu" else (None if inner != "cg" else str(rng.choice(["csc", "none", "csc_full"])))
     if sparse == "none":
         sparse = None
     flags = "explicit" if rng.random() < 0.5 else "auto"
@@ -303,6 +303,8 @@ def run(case):
             if seams.state["chol_forced"] + seams.state["chol_natural"] > f0:
                 probe("cholesky_fallback")
             m["A"] = A
+            if case["sparse"] and case["sparse"].endswith("_full") and op["pattern"] != "full":
+                probe("stored_zeros_fixed_structure")
             m["hist"] = {"N": [], "T": [], "H": []}
             m["cplx_seen"] = False
             if had:
